@@ -21,9 +21,14 @@ from infretis.classes.system import System
 LEVEL = "exploration"
 
 
+EXTRA_CV = [False]  # frames carry a second collective variable (order = [main, extra]); only the first one counts
+
+
 def frame(tag, order=None, vel_rev=False):
     s = System()
     s.order = [float(order if order is not None else tag)]
+    if EXTRA_CV[0]:
+        s.order.append(1000.0 - 7.0 * s.order[0])
     s.config = (f"f{tag}", int(tag))
     s.vel_rev = vel_rev
     s.vel = np.array([[1.0 if not vel_rev else -1.0]])
@@ -323,6 +328,17 @@ def opseq_cases(ctx, depth):
 
 def classify_cases(ctx, Lmax):
     n = 0
+    for extra in (False, True):
+        EXTRA_CV[0] = extra
+        try:
+            n += _classify_cases(ctx, Lmax if not extra else min(Lmax, 4))
+        finally:
+            EXTRA_CV[0] = False
+    return n
+
+
+def _classify_cases(ctx, Lmax):
+    n = 0
     done = set()
     # the origin of the axis is arbitrary: the same triples moved so that the right, middle or left interface is 0.0
     for (L_, M_, R_) in ((1.0, 2.0, 3.0), (1.0, 1.0, 3.0), (1.0, 3.0, 3.0), (2.0, 2.0, 2.0),
@@ -335,13 +351,21 @@ def classify_cases(ctx, Lmax):
                     p.phasepoints.append(frame(k, order=v))
                 n += 1
                 intf = [L_, M_, R_]
-                start, end, mid, cross = p.check_interfaces(intf)
+                try:
+                    start, end, mid, cross = p.check_interfaces(intf)
+                    p.ordermax, p.ordermin, p.get_start_point(L_, R_), p.get_end_point(L_, R_)
+                except Exception as e:  # noqa: BLE001 - raised by the code under test: a verdict
+                    if "classify:raised" not in done:
+                        done.add("classify:raised")
+                        ctx.violation("classify:raised", f"interfaces {intf} orders {[list(pp.order) for pp in p.phasepoints]}: {type(e).__name__}: {e}",
+                                      dict(kind="classify", intf=intf, order=list(order), extra=EXTRA_CV[0]))
+                    continue
                 omin, omax = min(order), max(order)
                 e_start = "L" if order[0] <= L_ else ("R" if order[0] >= R_ else "?")
                 e_end = "L" if order[-1] <= L_ else ("R" if order[-1] >= R_ else None)
                 e_cross = [omin < x <= omax for x in intf]
                 e_mid = "M" if e_cross[1] else "*"
-                rp = dict(kind="classify", intf=intf, order=list(order))
+                rp = dict(kind="classify", intf=intf, order=list(order), extra=EXTRA_CV[0])
                 if (start, end, mid, list(cross)) != (e_start, e_end, e_mid, e_cross):
                     if "classify:check_interfaces" not in done:
                         done.add("classify:check_interfaces")
